@@ -200,9 +200,17 @@ def lsp_diag_key(d):
 
 # ---------------------------------------------------------------------------------- main
 def run(ctx):
+    scratch = os.path.join(common.BUILD, "scratch", "lspserver", "run-%d" % os.getpid())
+    os.makedirs(scratch, exist_ok=True)
+    try:
+        _run(ctx, scratch)
+    finally:
+        shutil.rmtree(scratch, ignore_errors=True)     # session files, server TMPDIR, documents
+
+
+def _run(ctx, scratch):
     rng = ctx.rng
     garden = common.GARDEN
-    scratch = ctx.scratch("lsp")
     tmpdir = os.path.join(scratch, "tmp")
     os.makedirs(tmpdir, exist_ok=True)
     if os.path.exists(L.BASE):
@@ -387,7 +395,6 @@ def run(ctx):
     diagnostics_checks(ctx, garden, scratch, publishes)
 
     model.close()
-    shutil.rmtree(scratch, ignore_errors=True)
     ctx.assumptions += [
         "request handler bodies (hover, completion, …) are total functions in the model; their panic-freedom is "
         "only tested (every death of the server process is reported with its panic site)",
